@@ -132,6 +132,8 @@ structure Listener where
   inbox         : List Notif    -- notifications delivered to the subscription, not yet consumed
   delivered     : Nat
   acked         : Nat           -- notifications acked by `handleNotifyMsg`
+  ownDelivered  : Nat           -- ghost: delivered notifications carrying the listener's own operation id
+  ownSeen       : Nat           -- ghost: consumed notifications for which a reply was built
   buf           : List Reply    -- `replyChan` (capacity 1)
   chanClosed    : Bool
   finishedCalls : Nat
@@ -140,7 +142,7 @@ structure Listener where
   deriving DecidableEq, Repr, Hashable
 
 def Listener.new (op : Nat) : Listener :=
-  { op := op, pc := .loop, ctx := .live, subClosed := false, inbox := [], delivered := 0, acked := 0, buf := [],
+  { op := op, pc := .loop, ctx := .live, subClosed := false, inbox := [], delivered := 0, acked := 0, ownDelivered := 0, ownSeen := 0, buf := [],
     chanClosed := false, finishedCalls := 0, got := [], panicked := false }
 
 /-- steps of the listener goroutine -/
@@ -185,7 +187,7 @@ def lstep (fixed : Bool) (l : Listener) : LAct → Option Listener
     match l.pc, l.inbox with
     | .loop, n :: rest =>
       match replyFor l.op n with
-      | some r => some { l with inbox := rest, acked := l.acked + 1, pc := .send r }
+      | some r => some { l with inbox := rest, acked := l.acked + 1, ownSeen := l.ownSeen + 1, pc := .send r }
       | none => some { l with inbox := rest, acked := l.acked + 1 }
     | _, _ => none
   | .subClosed =>
@@ -270,7 +272,8 @@ def act (fixed : Bool) (s : St) : Action → Option St
     some { s with invs := s.invs ++ [⟨pre, op, o, p, effs⟩], pub := s.pub ++ accepted effs }
   | .deliver i k =>
     match s.pub[k]? with
-    | some n => updL s i (fun l => some { l with inbox := l.inbox ++ [n], delivered := l.delivered + 1 })
+    | some n => updL s i (fun l => some { l with inbox := l.inbox ++ [n], delivered := l.delivered + 1,
+                                                     ownDelivered := l.ownDelivered + (if n.op = l.op then 1 else 0) })
     | none => none
   | .l i a => updL s i (fun l => lstep fixed l a)
   | .c i a => updL s i (fun l => cstep l a)
@@ -290,6 +293,12 @@ def isClose (i : Nat) : Action → Bool
 def isFinish (i : Nat) : Action → Bool
   | .l j .finish => i == j
   | _ => false
+
+/-- replies made from a notification (everything but the synthetic timeout replies) -/
+def made (rs : List Reply) : Nat := (rs.filter (fun r => r.op?.isSome)).length
+
+/-- notifications carrying operation id `own` -/
+def ownIn (own : Nat) (ns : List Notif) : Nat := (ns.filter (fun n => n.op == own)).length
 
 def allLActs : List LAct := [.ctx, .recv, .subClosed, .send, .sendCtx, .cancel, .close, .finish]
 
